@@ -22,6 +22,8 @@ pub struct PoolCfg {
     /// address-space limit of a worker in bytes
     pub rlimit_as: u64,
     pub extra_args: Vec<String>,
+    /// worker executable (None: this executable)
+    pub exe: Option<std::path::PathBuf>,
 }
 
 impl PoolCfg {
@@ -33,6 +35,7 @@ impl PoolCfg {
             max_deaths: 3,
             rlimit_as: 8 << 30,
             extra_args: Vec::new(),
+            exe: None,
         }
     }
 }
@@ -69,7 +72,7 @@ fn run_worker(
     step: bool,
     shared: &Shared,
 ) -> WorkerEnd {
-    let exe = std::env::current_exe().expect("current exe");
+    let exe = pc.exe.clone().unwrap_or_else(|| std::env::current_exe().expect("current exe"));
     let mut cmd = Command::new(exe);
     cmd.arg("worker")
         .arg(prop)
